@@ -64,7 +64,8 @@ class Gen:
     def number(self, hostile=0.15):
         r = self.r
         if r.random() < hostile:
-            return r.choice((True, False, '12', 'abc', '', sh.EMPTY, self.err, ' 3 ', '1.5'))
+            return r.choice((True, False, '12', 'abc', '', sh.EMPTY, self.err, ' 3 ', '1.5',
+                             '.5', '-.5', ' .5 ', '5.', '-2'))
         return r.choice(NUMS)
 
     def text(self, hostile=0.15):
@@ -153,7 +154,8 @@ class Gen:
         if name == 'LEN' or name in ('UPPER', 'LOWER', 'TRIM', 'VALUE'):
             v = self.text(0.3)
             if name == 'VALUE' and r.random() < 0.5:
-                v = r.choice(('12', '1.5', ' 3 ', '-2', '1E+2', 'abc', '', '0.5', '+4'))
+                v = r.choice(('12', '1.5', ' 3 ', '-2', '1E+2', 'abc', '', '0.5', '+4',
+                              '.5', '-.5', '5.', ' .25'))
             return [f(v)]
         if name in ('LEFT', 'RIGHT'):
             a = [f(self.text())]
